@@ -41,3 +41,5 @@ pub mod protocol;
 pub mod publication;
 pub mod subscription;
 pub mod utils;
+#[cfg(unitedtraders_aeron_rs_verif)]
+pub mod verif_hook;
